@@ -616,6 +616,136 @@ def rule_r8(prog, res):
                         'twice, so the QName reference is ambiguous' % why)
 
 
+# ------------------------------------------------------------------- R9
+def rule_r9(prog, res):
+    res.rule('R9', 'the schema writer renders every class once: the set that '
+             'suppresses repeats is keyed by the class itself')
+    x = prog.cls('spyne.interface.xml_schema._base:XmlSchema')
+    f = x.methods.get('add')
+    if f is None:
+        raise AnalysisError('XmlSchema.add', 'not found')
+    ps = [p_ for p_ in f.params() if p_ != 'self']
+    clsname, setname = ps[0], ps[1]
+    adds = [c for c in calls_in(f.node) if isinstance(c.func, ast.Attribute)
+            and c.func.attr == 'add' and unparse(c.func.value) == setname]
+    tests = [c for c in ast.walk(f.node) if isinstance(c, ast.Compare) and
+             len(c.ops) == 1 and isinstance(c.ops[0], (ast.In, ast.NotIn))
+             and unparse(c.comparators[0]) == setname]
+    res.floor('R9', 'de-duplication set updates in XmlSchema.add', len(adds),
+              1)
+    res.floor('R9', 'de-duplication membership tests in XmlSchema.add',
+              len(tests), 1)
+    for what, nodes, key in (('adds', adds, lambda c: c.args[0]),
+                             ('tests', tests, lambda c: c.left)):
+        for c in nodes:
+            k = unparse(key(c))
+            ok = k == clsname
+            where = '%s:%d' % (f.module.relpath, c.lineno)
+            res.ob('R9', where, 'XmlSchema.add %s %s with key %s' % (
+                what, setname, k), 'ok' if ok else 'VIOLATED')
+            if not ok:
+                res.finding('R9', 'XmlSchema.add|dedup-key|%s' % what, where,
+                            'XmlSchema.add suppresses repeats by %s instead '
+                            'of by class: two classes with the same local '
+                            'name (customized variants, or same-named classes '
+                            'of two namespaces) collapse into one entry, so '
+                            'one of them is never rendered and references to '
+                            'it dangle or carry the wrong facets' % k)
+
+
+# ------------------------------------------------------------------ R10
+def rule_r10(prog, res):
+    res.rule('R10', 'every class that enters the registry also gets a node '
+             'in the dependency graph the schema is rendered from')
+    i = prog.cls('spyne.interface._base:Interface')
+    f = i.methods.get('add_class')
+    if f is None:
+        raise AnalysisError('Interface.add_class', 'not found')
+    stores = [a for a in walk_no_defs(f.node) if isinstance(a, ast.Assign)
+              and any(isinstance(t, ast.Subscript) and
+                      unparse(t.value) == 'self.classes' for t in a.targets)]
+    res.floor('R10', 'registry stores in Interface.add_class', len(stores), 1)
+    first = min(stores, key=lambda a: a.lineno)
+    need = set(guardspec.atoms_at(first, f.node))
+    nodes = [e for e in walk_no_defs(f.node) if isinstance(e, ast.Subscript)
+             and unparse(e.value) == 'self.deps' and
+             unparse(e.slice) == unparse(first.value)]
+    covering = []
+    for e in nodes:
+        st = e
+        while not isinstance(st, ast.stmt):
+            st = st._parent
+        extra = set(guardspec.atoms_at(st, f.node)) - need
+        if not extra:
+            covering.append(e)
+    ok = bool(covering)
+    res.ob('R10', f.where, 'Interface.add_class: %d accesses of self.deps[%s]'
+           ', %d of them run whenever the class is registered' % (
+               len(nodes), unparse(first.value), len(covering)),
+           'ok' if ok else 'VIOLATED')
+    if not ok:
+        res.finding('R10', 'Interface.add_class|deps-node', f.where,
+                    'a class is stored in self.classes without touching '
+                    'self.deps[%s] on the same path: classes without parent '
+                    'and fields (simple types, empty complex types) get no '
+                    'node in the dependency graph, are never rendered, and '
+                    'the references to them dangle' % unparse(first.value))
+
+
+# ------------------------------------------------------------------ R11
+def rule_r11(prog, res):
+    res.rule('R11', 'a service is auxiliary when any of its methods is: the '
+             'flag is_auxiliary() returns is set per method, so the WSDL '
+             'skips auxiliary services')
+    m = prog.cls('spyne.service:ServiceMeta')
+    g = m.methods.get('is_auxiliary')
+    f = m.methods.get('__init__')
+    if g is None or f is None:
+        raise AnalysisError('ServiceMeta', 'is_auxiliary/__init__ not found')
+    rets = [r for r in walk_no_defs(g.node) if isinstance(r, ast.Return)]
+    if len(rets) != 1 or not isinstance(rets[0].value, ast.Attribute):
+        res.unclassified.append('R11 is_auxiliary no longer returns a plain '
+                                'attribute: %s' % [unparse(r) for r in rets])
+        return
+    attr = unparse(rets[0].value)
+    loops = [l for l in walk_no_defs(f.node) if isinstance(l, ast.For) and
+             'cls_dict' in unparse(l.iter)]
+    res.floor('R11', 'method loops in ServiceMeta.__init__', len(loops), 1)
+    loop = loops[0]
+
+    def stores(name, region):
+        return [a for a in region if isinstance(a, ast.Assign) and
+                any(unparse(t) == name for t in a.targets)]
+    inloop = [n_ for b in loop.body for n_ in ast.walk(b)]
+    after = [n_ for n_ in walk_no_defs(f.node) if isinstance(n_, ast.stmt)
+             and n_.lineno > loop.end_lineno]
+
+    def per_method(name):
+        for a in stores(name, inloop):
+            atoms = guardspec.atoms_at(a, loop)
+            if any('.aux' in t for t, _ in atoms) and isinstance(
+                    a.value, ast.Constant) and a.value.value is True:
+                return a
+        return None
+    hit = per_method(attr)
+    if hit is None:
+        for a in stores(attr, after):
+            if isinstance(a.value, ast.Name) and per_method(a.value.id):
+                hit = a
+    ok = hit is not None
+    res.ob('R11', f.where, 'ServiceMeta.__init__: %s %s' % (attr, (
+        'is set at line %d from the per-method aux test' % hit.lineno) if ok
+        else 'is never updated from the per-method aux test'),
+        'ok' if ok else 'VIOLATED')
+    if not ok:
+        res.finding('R11', 'ServiceMeta.__init__|aux-flag-not-per-method',
+                    f.where, 'is_auxiliary() returns %s, which the method '
+                    'loop no longer sets when a method declares _aux: such a '
+                    'service is rendered into the WSDL as a primary one and '
+                    'every shadowed method appears as two portType '
+                    'operations' % attr)
+
+
 def run(prog, res, tier):
     res.run_rule(rule_r1, prog, res, tier)
     res.run_rule(rule_r2, prog, res)
@@ -625,6 +755,9 @@ def run(prog, res, tier):
     res.run_rule(rule_r6, prog, res)
     res.run_rule(rule_r7, prog, res)
     res.run_rule(rule_r8, prog, res)
+    res.run_rule(rule_r9, prog, res)
+    res.run_rule(rule_r10, prog, res)
+    res.run_rule(rule_r11, prog, res)
 
 
 _S = 'spyne/interface/xml_schema/_base.py'
@@ -633,6 +766,40 @@ _I = 'spyne/interface/_base.py'
 _T = 'spyne/util/toposort.py'
 
 MUTANTS = [
+    Mutant('aux-flag-local-only', 'R11', 'fire', 'spyne/service.py',
+           in_func('ServiceMeta.__init__',
+                   "            else:\n                self.__has_aux_methods "
+                   "= True\n",
+                   "            else:\n                pass\n"),
+           'aux-flag-not-per-method'),
+    Mutant('aux-flag-stored-after-loop', 'R11', 'silent', 'spyne/service.py',
+           in_func('ServiceMeta.__init__',
+                   r"(        self\.__has_aux_methods = self\.__aux__ is not "
+                   r"None\n)(.*)\Z",
+                   lambda m_: "        has_aux = self.__aux__ is not None\n" +
+                   m_.group(2).replace("self.__has_aux_methods", "has_aux") +
+                   "\n        self.__has_aux_methods = has_aux\n",
+                   regex=True), None),
+    Mutant('deps-node-only-with-edges', 'R10', 'fire',
+           'spyne/interface/_base.py',
+           in_func('Interface.add_class',
+                   "        self.deps[cls]  # despite the appearances, this is "
+                   "not totally useless.\n", ""),
+           'deps-node'),
+    Mutant('deps-node-via-setdefault-style', 'R10', 'silent',
+           'spyne/interface/_base.py',
+           in_func('Interface.add_class',
+                   "        self.deps[cls]  # despite the appearances, this is "
+                   "not totally useless.\n",
+                   "        node = self.deps[cls]\n        assert node is not "
+                   "None\n"), None),
+    Mutant('schema-dedup-by-name', 'R9', 'fire',
+           'spyne/interface/xml_schema/_base.py',
+           in_func('XmlSchema.add',
+                   "        if not (cls in tags):\n            tags.add(cls)\n",
+                   "        key = cls.get_type_name()\n"
+                   "        if not (key in tags):\n            tags.add(key)\n"),
+           'dedup-key'),
     Mutant('header-ref-own-prefix', 'R6', 'fire', _W,
            in_func('Wsdl11.add_bindings_for_methods',
                    "soap_header.set('message', '%s:%s' % (pref_tns,\n"
